@@ -260,11 +260,16 @@ func SkipWhileIWithContext[T any](predicate func(ctx context.Context, item T, in
 // will not emit any items. If the count is zero, SkipLast will emit all items.
 // Play: https://go.dev/play/p/gire30ONRBB
 func SkipLast[T any](count int) func(Observable[T]) Observable[T] {
-	if count < 1 {
+	if count < 0 {
 		panic(ErrSkipLastWrongCount)
 	}
 
 	return func(source Observable[T]) Observable[T] {
+		if count == 0 {
+			// nothing to skip: emit all items, as documented
+			return source
+		}
+
 		return NewUnsafeObservableWithContext(func(subscriberCtx context.Context, destination Observer[T]) Teardown {
 			// Use a circular buffer approach to avoid memory allocations
 			buffer := make([]lo.Tuple2[context.Context, T], count)
